@@ -371,6 +371,11 @@ func c13XHat(c *Ctx) {
 		low16 := "slice(bytes(x),sub(len(bytes(x)),0x10),_)"
 		wantB1 := "add(frombytes(?phi(bytes(x)|" + low16 + "))," + two127 + ")"
 		wantB2 := "add(frombytes(?phi(" + low16 + "|bytes(x)))," + two127 + ")"
+		// 2^127 written as 1 << 127, and the sum written in either order
+		got = strings.ReplaceAll(got, "big.Lsh(call:math/big.NewInt(0x1),0x7f)", two127)
+		if strings.HasPrefix(got, "add("+two127+",") {
+			got = "add(" + strings.TrimSuffix(strings.TrimPrefix(got, "add("+two127+","), ")") + "," + two127 + ")"
+		}
 		if got == wantB1 || got == wantB2 {
 			sliceForm = true
 		}
@@ -414,6 +419,10 @@ func c13XHat(c *Ctx) {
 			}
 		}
 	})
+	if !(zeroLoop && mask) {
+		z2, m2 := c13XHatGeneral(f, be)
+		zeroLoop, mask = zeroLoop || z2, mask || m2
+	}
 	c.Check(zeroLoop && mask, "K-C13-xhat", fn, "keeps the low 127 bits of x", "", "keXHat must clear everything above bit 126 of x (bytes before the last 16 and the top bit of byte len-16)", f.Pos())
 }
 
@@ -450,4 +459,170 @@ func noPointerParamWrites(c *Ctx, rule, pkg string, names []string, consequence 
 			c.Check(!bad, rule, fname(f), "does not modify "+pname(p), "", "memory reachable from the caller's "+pname(p)+" is written: "+fx.describe(at, wit)+" — "+consequence, wit.Pos)
 		}
 	}
+}
+
+// c13XHatGeneral: the two clearing steps of keXHat in any loop direction and guard spelling. With N = len(x.Bytes()):
+// (zero) a counted loop stores 0 at positions running exactly over 0 .. N-17; (mask) byte N-16 is and-ed with 0x7f in a
+// block that is unreachable for N <= 15 and lies on every path to a return for N >= 16 (decided on values, with the
+// interval evaluator over N and over N-16).
+func c13XHatGeneral(f *ssa.Function, be *bigEnv) (zero, mask bool) {
+	sym := func(name string) linForm { return linForm{coef: map[string]int64{name: 1}} }
+	var lf func(v ssa.Value, depth int) (linForm, bool)
+	lf = func(v ssa.Value, depth int) (linForm, bool) {
+		if depth > 8 {
+			return linForm{}, false
+		}
+		if k, ok := constInt(v); ok {
+			return linForm{k: k, coef: map[string]int64{}}, true
+		}
+		switch x := v.(type) {
+		case *ssa.Convert:
+			return lf(x.X, depth+1)
+		case *ssa.BinOp:
+			if x.Op == token.ADD || x.Op == token.SUB {
+				a, ok1 := lf(x.X, depth+1)
+				b, ok2 := lf(x.Y, depth+1)
+				if ok1 && ok2 {
+					if x.Op == token.ADD {
+						return a.add(b, 1), true
+					}
+					return a.add(b, -1), true
+				}
+			}
+		case *ssa.Call:
+			if bi, ok := x.Call.Value.(*ssa.Builtin); ok && bi.Name() == "len" && be.plain(x.Call.Args[0], x).String() == "bytes(x)" {
+				return sym("N"), true
+			}
+		}
+		return linForm{}, false
+	}
+	one := linForm{k: 1, coef: map[string]int64{}}
+	isBuf := func(v ssa.Value, at ssa.Instruction) bool { return be.plain(v, at).String() == "bytes(x)" }
+	instrsOf(f, func(_ *ssa.BasicBlock, in ssa.Instruction) {
+		st, ok := in.(*ssa.Store)
+		if !ok {
+			return
+		}
+		ia, ok := st.Addr.(*ssa.IndexAddr)
+		if !ok || !isBuf(ia.X, st) {
+			return
+		}
+		if k, isK := constInt(st.Val); isK && k == 0 {
+			p, isPhi := ia.Index.(*ssa.Phi)
+			if !isPhi || len(p.Edges) != 2 || !isLoopHeader(p.Block()) {
+				return
+			}
+			h := p.Block()
+			var init ssa.Value
+			step := int64(0)
+			for i, e := range p.Edges {
+				a := affineOf(e)
+				if h.Dominates(h.Preds[i]) && len(a.coef) == 1 && a.coef[p] == 1 && (a.k == 1 || a.k == -1) {
+					step = a.k
+				} else if !h.Dominates(h.Preds[i]) {
+					init = e
+				}
+			}
+			ifi, okIf := lastIf(h)
+			if init == nil || step == 0 || !okIf || !h.Succs[0].Dominates(st.Block()) {
+				return
+			}
+			cmp, okC := ifi.Cond.(*ssa.BinOp)
+			if !okC {
+				return
+			}
+			op, boundV := cmp.Op, cmp.Y
+			if cmp.X != ssa.Value(p) {
+				if cmp.Y != ssa.Value(p) {
+					return
+				}
+				boundV = cmp.X
+				switch op {
+				case token.LSS:
+					op = token.GTR
+				case token.LEQ:
+					op = token.GEQ
+				case token.GTR:
+					op = token.LSS
+				case token.GEQ:
+					op = token.LEQ
+				}
+			}
+			first, ok1 := lf(init, 0)
+			bound, ok2 := lf(boundV, 0)
+			if !ok1 || !ok2 {
+				return
+			}
+			var last linForm
+			switch {
+			case step == 1 && op == token.LSS:
+				last = bound.add(one, -1)
+			case step == 1 && op == token.LEQ:
+				last = bound
+			case step == -1 && op == token.GTR:
+				last = bound.add(one, 1)
+			case step == -1 && op == token.GEQ:
+				last = bound
+			default:
+				return
+			}
+			lo := linForm{coef: map[string]int64{}}
+			hi := sym("N").add(linForm{k: 17, coef: map[string]int64{}}, -1)
+			if (first.equal(lo) && last.equal(hi)) || (first.equal(hi) && last.equal(lo)) {
+				zero = true
+			}
+			return
+		}
+		bo, ok := st.Val.(*ssa.BinOp)
+		if !ok || bo.Op != token.AND {
+			return
+		}
+		if k, isK := constInt(bo.Y); !isK || k != 0x7f {
+			return
+		}
+		ld, isLd := bo.X.(*ssa.UnOp)
+		if !isLd {
+			return
+		}
+		ia2, isIA := ld.X.(*ssa.IndexAddr)
+		if !isIA || ia2.X != ia.X {
+			return
+		}
+		i1, ok1 := lf(ia.Index, 0)
+		i2, ok2 := lf(ia2.Index, 0)
+		want := sym("N").add(linForm{k: 16, coef: map[string]int64{}}, -1)
+		if !ok1 || !ok2 || !i1.equal(want) || !i2.equal(want) {
+			return
+		}
+		ci := newCondIndex(f, paramNames(f, "x"))
+		under := func(lo, hi int64, fn func()) {
+			lo2, hi2 := lo-16, hi-16
+			if hi < lo {
+				hi2 = lo2 - 1
+			}
+			ci.withInterval("len(bytes(x))", lo, hi, func() {
+				ci.withInterval("sub(len(bytes(x)),0x10)", lo2, hi2, fn)
+			})
+		}
+		shortReach, longBypass := true, true
+		under(0, 15, func() {
+			shortReach = reach([]*ssa.BasicBlock{f.Blocks[0]}, deadEdges(f))[st.Block()]
+		})
+		under(16, 15, func() {
+			cut := deadEdges(f)
+			for _, pr := range st.Block().Preds {
+				cut[edge{pr, st.Block()}] = true
+			}
+			longBypass = false
+			for b := range reach([]*ssa.BasicBlock{f.Blocks[0]}, cut) {
+				if _, isRet := b.Instrs[len(b.Instrs)-1].(*ssa.Return); isRet {
+					longBypass = true
+				}
+			}
+		})
+		if !shortReach && !longBypass {
+			mask = true
+		}
+	})
+	return zero, mask
 }
